@@ -8,6 +8,10 @@ package main
 // connection), unexpected form field, file without benchmark lines, rows the
 // database refuses, client Abort; after each run /search, /uploads and the file
 // store are recorded. And DB.NewUpload sequentially and from 16 goroutines.
+// The file store is either in memory or the real local-disk implementation
+// (storage/fs/local, as cmd/localperfdata -data constructs it) over a fresh
+// directory under $VERIF_WORK, in which case "the file store" is what a walk
+// of that directory finds afterwards (any name, also temporary ones).
 
 import (
 	"bytes"
@@ -18,6 +22,7 @@ import (
 	"errors"
 	"fmt"
 	"io"
+	iofs "io/fs"
 	"log"
 	"mime/multipart"
 	"net/http"
@@ -34,6 +39,7 @@ import (
 	"golang.org/x/perf/storage/db"
 	_ "golang.org/x/perf/storage/db/sqlite3"
 	"golang.org/x/perf/storage/fs"
+	"golang.org/x/perf/storage/fs/local"
 	"verifharness/internal/hx"
 )
 
@@ -55,7 +61,12 @@ type faultFS struct {
 	creates int // NewWriter calls so far
 	open    int // writers not yet closed
 	ops     int
-	failAt  int // index of the operation (create, write, close) that fails; -1 = none
+	failAt int // index of the operation (create, write, close) that fails; -1 = none
+	// disk != nil: the files live in the local-disk store rooted at root; the
+	// map above is then only the bookkeeping of what the store was told
+	disk fs.FS
+	root string
+	tmp  string // the process's TMPDIR while a disk store is in use; must stay empty
 }
 
 func newFaultFS(failAt int) *faultFS { return &faultFS{files: map[string]*ffsFile{}, failAt: failAt} }
@@ -72,28 +83,46 @@ func (f *faultFS) step() error {
 }
 
 type ffsWriter struct {
-	fs   *faultFS
-	name string
-	done bool
+	fs    *faultFS
+	name  string
+	done  bool
+	inner fs.Writer // the local-disk writer, if any
 }
 
-func (f *faultFS) NewWriter(_ context.Context, name string, _ map[string]string) (fs.Writer, error) {
+func (f *faultFS) NewWriter(ctx context.Context, name string, meta map[string]string) (fs.Writer, error) {
 	f.mu.Lock()
 	defer f.mu.Unlock()
 	if err := f.step(); err != nil {
 		return nil, err
 	}
+	var inner fs.Writer
+	if f.disk != nil {
+		var err error
+		if inner, err = f.disk.NewWriter(ctx, name, meta); err != nil {
+			return nil, err
+		}
+	}
 	f.files[name] = &ffsFile{}
 	f.creates++
 	f.open++
-	return &ffsWriter{fs: f, name: name}, nil
+	return &ffsWriter{fs: f, name: name, inner: inner}, nil
 }
 
 func (w *ffsWriter) Write(p []byte) (int, error) {
 	w.fs.mu.Lock()
 	defer w.fs.mu.Unlock()
 	if err := w.fs.step(); err != nil {
+		if w.inner != nil && len(p) > 1 {
+			// a short write (disk full): part of the data reaches the file
+			n, _ := w.inner.Write(p[:len(p)/2])
+			return n, err
+		}
 		return 0, err
+	}
+	if w.inner != nil {
+		if n, err := w.inner.Write(p); err != nil {
+			return n, err
+		}
 	}
 	fl := w.fs.files[w.name]
 	fl.content = append(fl.content, p...)
@@ -111,13 +140,23 @@ func (w *ffsWriter) Close() error {
 	w.fs.open--
 	if err := w.fs.step(); err != nil {
 		delete(w.fs.files, w.name)
+		if w.inner != nil {
+			// a failing Close stores nothing (contract of fs.Writer)
+			w.inner.CloseWithError(err)
+		}
 		return err
+	}
+	if w.inner != nil {
+		if err := w.inner.Close(); err != nil {
+			delete(w.fs.files, w.name)
+			return err
+		}
 	}
 	w.fs.files[w.name].complete = true
 	return nil
 }
 
-func (w *ffsWriter) CloseWithError(error) error {
+func (w *ffsWriter) CloseWithError(err error) error {
 	w.fs.mu.Lock()
 	defer w.fs.mu.Unlock()
 	if !w.done {
@@ -125,7 +164,57 @@ func (w *ffsWriter) CloseWithError(error) error {
 	}
 	w.done = true
 	delete(w.fs.files, w.name)
+	if w.inner != nil {
+		return w.inner.CloseWithError(err)
+	}
 	return nil
+}
+
+// snapshot: what the store holds now, sorted by name. On disk: every
+// non-directory entry below the root, whatever its name; it counts as complete
+// only if the store was told to keep exactly that file.
+type ffsEntry struct {
+	name     string
+	content  []byte
+	complete bool
+}
+
+func (f *faultFS) snapshot() []ffsEntry {
+	f.mu.Lock()
+	defer f.mu.Unlock()
+	var out []ffsEntry
+	if f.disk == nil {
+		for n, fl := range f.files {
+			out = append(out, ffsEntry{n, fl.content, fl.complete})
+		}
+	} else {
+		filepath.WalkDir(f.root, func(path string, d iofs.DirEntry, err error) error {
+			if err != nil || d.IsDir() {
+				return nil
+			}
+			rel, _ := filepath.Rel(f.root, path)
+			rel = filepath.ToSlash(rel)
+			b, rerr := os.ReadFile(path)
+			if rerr != nil {
+				b = []byte("unreadable: " + d.Type().String())
+			}
+			bk := f.files[rel]
+			out = append(out, ffsEntry{rel, b, d.Type().IsRegular() && bk != nil && bk.complete})
+			return nil
+		})
+		// anything left in the temporary directory is a leftover too
+		filepath.WalkDir(f.tmp, func(path string, d iofs.DirEntry, err error) error {
+			if err != nil || d.IsDir() {
+				return nil
+			}
+			rel, _ := filepath.Rel(f.tmp, path)
+			b, _ := os.ReadFile(path)
+			out = append(out, ffsEntry{"TMPDIR/" + filepath.ToSlash(rel), b, false})
+			return nil
+		})
+	}
+	sort.Slice(out, func(i, j int) bool { return out[i].name < out[j].name })
+	return out
 }
 
 // ---------- fault-injecting SQL connector (under sqlite, through the tagged
@@ -141,7 +230,7 @@ type faultSQL struct {
 	during    []int    // per operation: number of file writers created so far if one is open, else -1
 	fs        *faultFS // to note which file is being written when an operation happens
 	failAt    int      // -1 = none
-	failEvery int      // > 0: every failEvery-th operation fails (concurrency soak)
+	failEvery int // > 0: every failEvery-th operation fails (concurrency soak)
 	dsn       string
 	drv       *sqlite3.SQLiteDriver
 }
@@ -281,13 +370,38 @@ func (t inprocTransport) RoundTrip(req *http.Request) (*http.Response, error) {
 	return rec.Result(), nil
 }
 
-func c20NewServer(user string) (*c20Server, error) {
+var c20DiskSeq int
+
+// c20NewServer: store "" = in-memory files, "disk" = storage/fs/local over a
+// fresh directory under $VERIF_WORK.
+func c20NewServer(user, store string) (*c20Server, error) {
 	// one connection: an in-memory sqlite database lives in its connection
 	d, fsql, err := c20OpenDB(":memory:", 1)
 	if err != nil {
 		return nil, err
 	}
 	s := &c20Server{db: d, sql: fsql, fs: newFaultFS(-1), user: user}
+	if store == "disk" {
+		dir := os.Getenv("VERIF_WORK")
+		if dir == "" {
+			dir = os.TempDir()
+		}
+		c20DiskSeq++
+		root := filepath.Join(dir, fmt.Sprintf("c20disk_%d", c20DiskSeq))
+		os.RemoveAll(root)
+		if err := os.MkdirAll(root, 0777); err != nil {
+			d.Close()
+			return nil, err
+		}
+		s.fs.root, s.fs.disk = root, local.NewFS(root)
+		s.fs.tmp = filepath.Join(dir, "c20tmp")
+		os.RemoveAll(s.fs.tmp)
+		if err := os.MkdirAll(s.fs.tmp, 0777); err != nil {
+			d.Close()
+			return nil, err
+		}
+		os.Setenv("TMPDIR", s.fs.tmp)
+	}
 	fsql.fs = s.fs
 	a := &sapp.App{DB: d, FS: s.fs, Auth: func(http.ResponseWriter, *http.Request) (string, error) { return s.user, nil }}
 	s.mux = http.NewServeMux()
@@ -296,7 +410,12 @@ func c20NewServer(user string) (*c20Server, error) {
 	return s, nil
 }
 
-func (s *c20Server) Close() { s.db.Close() }
+func (s *c20Server) Close() {
+	s.db.Close()
+	if s.fs.root != "" {
+		os.RemoveAll(s.fs.root)
+	}
+}
 
 // ---------- requests ----------
 
@@ -426,38 +545,25 @@ func (s *c20Server) observe(ok bool, id string) (hx.Sx, error) {
 		return hx.Sx{}, fmt.Errorf("/uploads: %v", err)
 	}
 	ul.Close()
-	s.fs.mu.Lock()
-	var names []string
-	for n := range s.fs.files {
-		names = append(names, n)
-	}
-	sort.Strings(names)
 	var fl []hx.Sx
-	for _, n := range names {
-		f := s.fs.files[n]
-		fl = append(fl, hx.L(hx.S(n), hx.B(f.content), hx.Bool(f.complete)))
+	for _, f := range s.fs.snapshot() {
+		fl = append(fl, hx.L(hx.S(f.name), hx.B(f.content), hx.Bool(f.complete)))
 	}
-	s.fs.mu.Unlock()
 	return hx.L(hx.Bool(ok), hx.S(id), hx.List(sr), hx.List(li), hx.List(fl)), nil
 }
 
 // idAndTime finds the ID and upload-time of the upload that wrote new files.
 func (s *c20Server) idAndTime(before map[string]bool) (id, tm string) {
-	s.fs.mu.Lock()
-	defer s.fs.mu.Unlock()
-	var names []string
-	for n := range s.fs.files {
-		if !before[n] {
-			names = append(names, n)
+	for _, f := range s.fs.snapshot() {
+		n := f.name
+		if before[n] {
+			continue
 		}
-	}
-	sort.Strings(names)
-	for _, n := range names {
 		rest := strings.TrimPrefix(n, "uploads/")
 		if i := strings.Index(rest, "/"); i >= 0 {
 			id = rest[:i]
 		}
-		for _, line := range strings.Split(string(s.fs.files[n].content), "\n") {
+		for _, line := range strings.Split(string(f.content), "\n") {
 			if strings.HasPrefix(line, "upload-time: ") {
 				tm = line[len("upload-time: "):]
 			}
@@ -467,11 +573,9 @@ func (s *c20Server) idAndTime(before map[string]bool) (id, tm string) {
 }
 
 func (s *c20Server) fileSet() map[string]bool {
-	s.fs.mu.Lock()
-	defer s.fs.mu.Unlock()
 	m := map[string]bool{}
-	for n := range s.fs.files {
-		m[n] = true
+	for _, f := range s.fs.snapshot() {
+		m[f.name] = true
 	}
 	return m
 }
@@ -490,6 +594,57 @@ func (s *c20Server) writesOf(id string) map[int]int {
 	return m
 }
 
+// c20CutClass says where offset cut falls in the encoded body:
+//   "boundary-token": inside a delimiter line, after its complete "\r\n--BOUNDARY"
+//                     (right after the token, after the following CR, or inside /
+//                     before the closing dashes of the final delimiter)
+//   "delimiter":      inside a delimiter line before the token is complete
+//   "header":         in the MIME header of a part (from just after the delimiter
+//                     line's CRLF up to, not including, the end of the blank line)
+//   "data":           elsewhere (part data, or at/after the end)
+// and how many complete delimiter lines precede it.
+func c20CutClass(full []byte, cut int) (class string, before int) {
+	tok := []byte("--" + c20Boundary)
+	pos := 0
+	for {
+		var p, tokEnd int
+		if pos == 0 && bytes.HasPrefix(full, tok) {
+			p, tokEnd = 0, len(tok)
+		} else {
+			i := bytes.Index(full[pos:], append([]byte("\r\n"), tok...))
+			if i < 0 {
+				return "data", before
+			}
+			p, tokEnd = pos+i, pos+i+2+len(tok)
+		}
+		final := bytes.HasPrefix(full[tokEnd:], []byte("--"))
+		lineEnd := tokEnd + 2 // CRLF
+		if final {
+			lineEnd = tokEnd + 2 // the closing dashes; what follows is the epilogue
+		}
+		switch {
+		case cut <= p:
+			return "data", before
+		case cut < tokEnd:
+			return "delimiter", before
+		case cut < lineEnd:
+			return "boundary-token", before
+		}
+		if final {
+			return "data", before + 1
+		}
+		before++
+		hdrEnd := len(full)
+		if i := bytes.Index(full[lineEnd:], []byte("\r\n\r\n")); i >= 0 {
+			hdrEnd = lineEnd + i + 4
+		}
+		if cut < hdrEnd {
+			return "header", before
+		}
+		pos = hdrEnd - 2 // an empty part's delimiter starts with the blank line's CRLF
+	}
+}
+
 // ---------- one fault run ----------
 
 type c20Fault struct {
@@ -499,6 +654,7 @@ type c20Fault struct {
 
 type c20Input struct {
 	Kind  string   `json:"kind"`
+	Store string   `json:"store,omitempty"` // "" in-memory file store, "disk" storage/fs/local
 	Pre   []c20Req `json:"pre"`
 	Req   c20Req   `json:"req"`
 	Fault c20Fault `json:"fault"`
@@ -540,8 +696,8 @@ func c20ItemsSx(items []c20Item, user string, writes map[int]int) hx.Sx {
 }
 
 // setup builds a fresh server and replays the earlier (fault-free) uploads.
-func c20Setup(pre []c20Req) (*c20Server, []hx.Sx, error) {
-	s, err := c20NewServer("")
+func c20Setup(pre []c20Req, store string) (*c20Server, []hx.Sx, error) {
+	s, err := c20NewServer("", store)
 	if err != nil {
 		return nil, nil, err
 	}
@@ -565,7 +721,7 @@ func c20Setup(pre []c20Req) (*c20Server, []hx.Sx, error) {
 // dryRun: fault-free run of the request on an identical server: number of
 // file-store operations and writes per file.
 func c20DryRun(in c20Input) (ops int, writes map[int]int, sqlKinds []string, sqlDuring []int, err error) {
-	s, _, err := c20Setup(in.Pre)
+	s, _, err := c20Setup(in.Pre, in.Store)
 	if err != nil {
 		return 0, nil, nil, nil, err
 	}
@@ -620,7 +776,7 @@ func c20SQLClass(kinds []string, during []int, n int) (class, part int, err erro
 }
 
 func c20Run(o *hx.Out, in c20Input, writes map[int]int, sqlKinds []string, sqlDuring []int) error {
-	s, presx, err := c20Setup(in.Pre)
+	s, presx, err := c20Setup(in.Pre, in.Store)
 	if err != nil {
 		return err
 	}
@@ -696,9 +852,56 @@ func c20Run(o *hx.Out, in c20Input, writes map[int]int, sqlKinds []string, sqlDu
 			nfilesDone++
 		}
 	}
+	cutClass := ""
+	if in.Fault.Kind == "cut" || in.Fault.Kind == "drop" {
+		cutClass, _ = c20CutClass(full, cut)
+		o.Count("upload." + in.Fault.Kind + "-in=" + cutClass)
+	}
 	if in.Fault.Kind == "cut" && end == 2 && nfilesDone > 0 {
-		tags = append(tags, "C20_truncated_in_later_part_header")
-		o.Count("upload.cut-in-later-header")
+		// the known finding is only this narrow class: the body stops inside the
+		// MIME header of a later part. A bare EOF anywhere else (e.g. inside a
+		// delimiter line) is not excused.
+		if cutClass == "header" {
+			tags = append(tags, "C20_truncated_in_later_part_header")
+			o.Count("upload.cut-in-later-header")
+		} else {
+			o.Count("upload.bare-eof-outside-header")
+		}
+	}
+	if in.Store == "disk" {
+		o.Count("upload.disk.fault=" + in.Fault.Kind)
+	}
+	{
+		// a request of >= 2 files, some with and some without benchmark lines
+		nf, bad, firstBad, lastBad := 0, 0, -1, -1
+		for _, p := range in.Req.Parts {
+			if p.Kind != "file" {
+				continue
+			}
+			if !c20HasBenchLine(p.Body) {
+				bad++
+				if firstBad < 0 {
+					firstBad = nf
+				}
+				lastBad = nf
+			}
+			nf++
+		}
+		if in.Fault.Kind == "none" && nf >= 2 && bad > 0 && bad < nf {
+			o.Count("upload.mixed-nobench")
+			if firstBad == 0 {
+				o.Count("upload.mixed-nobench.first")
+			}
+			if lastBad == nf-1 {
+				o.Count("upload.mixed-nobench.last")
+			}
+			if firstBad > 0 && firstBad < nf-1 || lastBad > 0 && lastBad < nf-1 {
+				o.Count("upload.mixed-nobench.middle")
+			}
+			if ok {
+				o.Count("upload.mixed-nobench.ACCEPTED")
+			}
+		}
 	}
 	o.Count("upload.fault=" + in.Fault.Kind)
 	if ok {
@@ -711,6 +914,64 @@ func c20Run(o *hx.Out, in c20Input, writes map[int]int, sqlKinds []string, sqlDu
 }
 
 // ---------- scenarios ----------
+
+// c20HasBenchLine: some line of body starts with "Benchmark" and has white
+// space after the name (coarse; only used to record the distribution).
+func c20HasBenchLine(body string) bool {
+	for _, l := range strings.Split(body, "\n") {
+		if strings.HasPrefix(l, "Benchmark") && strings.ContainsAny(l, " \t") {
+			return true
+		}
+	}
+	return false
+}
+
+var c20NoBenchBodies = []string{"", "k: v\n", "no benchmark here\n", "BenchmarkNoSpace\n", "\n", "PASS\nok  \tpkg\t0.1s\n", "benchmarkFoo 1 2 ns/op\n", "goos: linux\ngoarch: amd64\n\n"}
+
+// c20Mixed: uploads of 2-4 files of which one (every position, every kind of
+// benchmark-free content) or two have no benchmark line: the whole upload
+// must fail, with nothing queryable or listed.
+func c20Mixed(o *hx.Out, r *hx.Rng, store string, allBodies bool) error {
+	for nfiles := 2; nfiles <= 4; nfiles++ {
+		in := c20Input{Kind: "upload", Store: store, Fault: c20Fault{"none", 0}}
+		for j := r.Intn(2); j > 0; j-- {
+			in.Pre = append(in.Pre, c20GenReq(r, r.Range(1, 2)))
+		}
+		good := c20GenReq(r, nfiles)
+		var variants [][]int // positions without benchmark lines
+		for j := 0; j < nfiles; j++ {
+			variants = append(variants, []int{j})
+		}
+		a := r.Intn(nfiles)
+		b := (a + 1 + r.Intn(nfiles-1)) % nfiles
+		if nfiles > 2 {
+			variants = append(variants, []int{a, b})
+		}
+		for _, v := range variants {
+			bodies := c20NoBenchBodies
+			if !allBodies || len(v) > 1 {
+				bodies = []string{r.Pick(c20NoBenchBodies)}
+			}
+			for _, bad := range bodies {
+				x := in
+				x.Req = c20Req{User: good.User, Parts: append([]c20Part{}, good.Parts...)}
+				for _, j := range v {
+					x.Req.Parts[j].Body = bad
+				}
+				if err := c20Run(o, x, nil, nil, nil); err != nil {
+					return err
+				}
+			}
+		}
+		// and the intact request, which must succeed
+		x := in
+		x.Req = good
+		if err := c20Run(o, x, nil, nil, nil); err != nil {
+			return err
+		}
+	}
+	return nil
+}
 
 func c20GenFileBody(r *hx.Rng) string {
 	var sb strings.Builder
@@ -736,12 +997,17 @@ func c20GenReq(r *hx.Rng, nfiles int) c20Req {
 	return rq
 }
 
-func c20Scenario(o *hx.Out, r *hx.Rng, allCuts bool, cutStride int, big bool) error {
-	in := c20Input{Kind: "upload"}
+type c20ScenOpts struct {
+	store    string // "" | "disk"
+	minFiles int
+}
+
+func c20Scenario(o *hx.Out, r *hx.Rng, allCuts bool, cutStride int, big bool, op c20ScenOpts) error {
+	in := c20Input{Kind: "upload", Store: op.store}
 	for j := r.Intn(3); j > 0; j-- {
 		in.Pre = append(in.Pre, c20GenReq(r, r.Range(1, 2)))
 	}
-	nfiles := r.Range(1, 3)
+	nfiles := r.Range(max(1, op.minFiles), 3)
 	in.Req = c20GenReq(r, nfiles)
 	if big {
 		// enough distinct records to cross the 990-argument flush boundary
@@ -818,8 +1084,23 @@ func c20Scenario(o *hx.Out, r *hx.Rng, allCuts bool, cutStride int, big bool) er
 	}
 	// the body cut at byte offsets, with intact framing and as a dropped connection
 	full := c20Encode(in.Req.Parts)
+	// every delimiter line: right after "\r\n--BOUNDARY", after the CR (or the
+	// first closing dash) that follows, and inside the token
+	want := map[int]bool{}
+	tok := []byte("\r\n--" + c20Boundary)
+	for p := 0; ; {
+		i := bytes.Index(full[p:], tok)
+		if i < 0 {
+			break
+		}
+		p += i
+		for _, c := range []int{p + 1, p + 2, p + 4, p + 4 + len(c20Boundary)/2, p + len(tok), p + len(tok) + 1} {
+			want[c] = true
+		}
+		p += len(tok)
+	}
 	for cut := 0; cut < len(full); cut++ {
-		if !allCuts && cut%cutStride != 0 {
+		if !allCuts && cut%cutStride != 0 && !want[cut] {
 			continue
 		}
 		if err := run(c20Fault{"cut", cut}, in.Req); err != nil {
@@ -932,20 +1213,35 @@ func c20IDs(o *hx.Out, nseq, ngo, each int, txlock string, failEvery int) error 
 
 func genC20(o *hx.Out, r *hx.Rng, tier string, replay string) error {
 	log.SetOutput(io.Discard)
-	o.Rule = "per scenario (0-2 earlier uploads, a request of 1-3 files + commit field): the fault-free run; every file-store operation index failing in turn (create / each header write / separator / body writes / close, plus one index beyond); every database operation index failing in turn (NewUpload's begin/read/insert/commit, begin of the records transaction, each flush INSERT incl. the 990-argument boundary in the big scenarios, final commit, plus one beyond); an unexpected field and a client Abort (storage.Client) at every position; each file in turn without benchmark lines, and with a label the database refuses; a request without files; the multipart body cut at byte offsets both with intact HTTP framing and as a dropped connection (every offset in the designated scenarios). After each run /search (upload>), /uploads and the file store are recorded. Plus DB.NewUpload 40 times sequentially and from 16 goroutines on one file-backed sqlite database (deferred and immediate transactions), and again with every 11th / 7th database operation failing. non-trivial = every case"
-	nscen, nall, nbig := 6, 2, 1
+	o.Rule = "per scenario (0-2 earlier uploads, a request of 1-3 files + commit field): the fault-free run; every file-store operation index failing in turn (create / each header write / separator / body writes / close, plus one index beyond); every database operation index failing in turn (NewUpload's begin/read/insert/commit, begin of the records transaction, each flush INSERT incl. the 990-argument boundary in the big scenarios, final commit, plus one beyond); an unexpected field and a client Abort (storage.Client) at every position; each file in turn without benchmark lines, and with a label the database refuses; a request without files; the multipart body cut at byte offsets both with intact HTTP framing and as a dropped connection (every offset in the designated scenarios; in every scenario the offsets inside each delimiter line: after CR, CRLF, the dashes, half the boundary, the complete \\r\\n--BOUNDARY, and one byte further). The same enumeration on the local-disk file store (storage/fs/local over a fresh directory; write faults as short writes; the directory is walked afterwards, every name counts). Uploads of 2-4 files with one (every position, every kind of benchmark-free content) or two files without benchmark lines, on both stores. After each run /search (upload>), /uploads and the file store are recorded. Plus DB.NewUpload 40 times sequentially and from 16 goroutines on one file-backed sqlite database (deferred and immediate transactions), and again with every 11th / 7th database operation failing. non-trivial = every case"
+	nscen, nall, nbig, ndisk, nmixed := 6, 2, 1, 2, 1
 	each := 50
 	if tier == "thorough" {
-		nscen, nall, nbig = 60, 12, 6
+		nscen, nall, nbig, ndisk, nmixed = 60, 12, 6, 20, 8
 		each = 200
 	}
 	for i := 0; i < nscen; i++ {
-		if err := c20Scenario(o, r.Split(), i < nall, 7, false); err != nil {
+		if err := c20Scenario(o, r.Split(), i < nall, 7, false, c20ScenOpts{}); err != nil {
 			return err
 		}
 	}
 	for i := 0; i < nbig; i++ {
-		if err := c20Scenario(o, r.Split(), false, 7, true); err != nil {
+		if err := c20Scenario(o, r.Split(), false, 7, true, c20ScenOpts{}); err != nil {
+			return err
+		}
+	}
+	// the same enumeration against the local-disk file store
+	for i := 0; i < ndisk; i++ {
+		if err := c20Scenario(o, r.Split(), false, 13, false, c20ScenOpts{store: "disk", minFiles: 1 + i%2}); err != nil {
+			return err
+		}
+	}
+	// files without benchmark lines among files with them
+	for i := 0; i < nmixed; i++ {
+		if err := c20Mixed(o, r.Split(), "", true); err != nil {
+			return err
+		}
+		if err := c20Mixed(o, r.Split(), "disk", false); err != nil {
 			return err
 		}
 	}
